@@ -60,3 +60,38 @@ func VerifH12b() {
 	w.checkReads("H12b")
 	nd.Reach("H12b.end")
 }
+
+// h12Sizes: 0, 1 and the stream chunk size (2048) and its double +-1.
+var h12Sizes = []int{0, 1, 2047, 2048, 2049, 4097}
+
+// VerifH12c: Create through the real gRPC client over the loop-back transport: the content is
+// split into 0..2 (thorough: 0..3) writes of sizes around the chunk size of the stream writer;
+// Close returns nil and Get yields exactly the concatenation of all written (symbolic) bytes.
+func VerifH12c() {
+	nd.SetPreemptionBound(0)
+	concreteCounter = true
+	cfg := stdConfig()
+	w := &world{cfg: cfg, keys: []string{"a"}, txs: []*rtx{nil}, vlen: 1}
+	w.d, w.c, _ = openExternal(cfg)
+	maxW := 2
+	if nd.Tier() == 1 {
+		maxW = 3
+	}
+	nd.Bound("H12c.max_writes", maxW)
+	f, err := w.d.Create(ctx, "a")
+	nd.Assert(err == nil, "H12c.create")
+	m := nd.Choice("writes", maxW+1)
+	var all []byte
+	for i := 0; i < m; i++ {
+		p := nd.Bytes("w", h12Sizes[nd.Choice("size", len(h12Sizes))])
+		all = append(all, p...)
+		n, werr := f.Write(p)
+		nd.Assert(werr == nil && n == len(p), "H12c.write-ok")
+	}
+	nd.Assert(f.Close() == nil, "H12c.close-ok")
+	got, gerr := w.d.Get(ctx, "a")
+	nd.Assert(gerr == nil, "H12c.get-ok")
+	nd.Assert(len(got) == len(all), "H12c.length-is-sum-of-writes")
+	nd.Assert(nd.EqBytes(got, all), "H12c.content-is-concatenation-of-writes")
+	nd.Reach("H12c.end")
+}
